@@ -417,7 +417,8 @@ class Scheduler:
 
 # -------------------------------------------------------------- explorer
 
-def explore(run_one, bound, max_execs=None, on_exec=None, order_seed=0):
+def explore(run_one, bound, max_execs=None, on_exec=None, order_seed=0,
+            root=None, expand_only=False):
     """Iterative context bounding.
 
     run_one(choices) -> Scheduler (after run) ; must build fresh objects.
@@ -427,7 +428,8 @@ def explore(run_one, bound, max_execs=None, on_exec=None, order_seed=0):
     """
     stats = dict(executions=0, decisions=0, steps=0, capped=False,
                  max_points=0)
-    stack = [[]]
+    stack = [list(root or [])]
+    stats['children'] = []
     while stack:
         prefix = stack.pop()
         if max_execs is not None and stats['executions'] >= max_execs:
@@ -451,5 +453,8 @@ def explore(run_one, bound, max_execs=None, on_exec=None, order_seed=0):
                 if cost > bound:
                     continue
                 children.append([q.choice for q in pts[:i]] + [alt])
+        if expand_only:
+            stats['children'] = children
+            break
         stack.extend(reversed(children))
     return stats
